@@ -13,6 +13,7 @@ pub mod c15;
 pub mod c16;
 pub mod c17;
 pub mod c18;
+pub mod c19;
 
 /// A bounded space of cases with its oracle.
 pub trait Space: Sync {
@@ -94,6 +95,7 @@ pub fn run_check(id: &str, tier: &str) -> i32 {
         "C16" => c16::run(tier),
         "C17" => c17::run(tier),
         "C18" => c18::run(tier),
+        "C19" => c19::run(tier),
         _ => {
             eprintln!("MACHINERY-ERROR: unknown property {}", id);
             2
@@ -122,6 +124,7 @@ pub fn run_replay(path: &str) -> i32 {
         "C16" => c16::replay(&f),
         "C17" => c17::replay(&f),
         "C18" => c18::replay(&f),
+        "C19" => c19::replay(&f),
         _ => {
             eprintln!("MACHINERY-ERROR: unknown property {}", prop);
             2
